@@ -3,10 +3,14 @@
    segment / child indexes, which C04 and C10 prove to be exact accelerators);
    kernel-checked here: SimplePoint and Rect write the bytes of Point and of the
    five-point Polygon, and answer predicates alike (C09).  That every observable
-   is identical under the seven index-option variants, the three
-   representation-option variants and RequireValid is decided on every run by
-   re-parsing every accepted document under all of them. *)
-From GJ Require Import Base JsonConst Json JsonProofs Obj ObjProofs.
+   is identical under the seven index-option variants and the three
+   representation-option variants is decided on every run by re-parsing every
+   accepted document under all of them.  The RequireValid clause is proved
+   outright on the parse model (ParseValid.v): what Parse returns under
+   RequireValid is valid, and RequireValid changes nothing else - the two runs
+   on the same tree either return the same object, or the plain run returns an
+   object that reports itself invalid and the RequireValid run an error. *)
+From GJ Require Import Base JsonConst Json JsonProofs Obj ObjProofs ParseValid.
 
 Theorem C08_simplepoint_same_json : forall (fmt : Z -> list Z) p, emit fmt (JSimple p) = emit fmt (JPoint p None).
 Proof. exact emit_simple_as_point. Qed.
@@ -20,5 +24,14 @@ Theorem C08_simplepoint_same_answers_receiver : forall p b,
   o_contains (OSimple p) b = o_contains (OPoint p) b /\ o_intersects (OSimple p) b = o_intersects (OPoint p) b.
 Proof. exact simplepoint_receiver. Qed.
 
+Theorem C08_require_valid_sound : forall fuel o one v g,
+  require_valid o = true -> parse fuel o one v = POk g -> g_valid o g = true.
+Proof. exact parse_require_valid. Qed.
+Theorem C08_require_valid_exact : forall fuel o one v,
+  rv_rel o (parse fuel (with_rv o false) one v) (parse fuel (with_rv o true) one v).
+Proof. exact parse_rv_exact. Qed.
+
 Print Assumptions C08_rect_same_json.
+Print Assumptions C08_require_valid_sound.
+Print Assumptions C08_require_valid_exact.
 Print Assumptions C08_simplepoint_same_answers.
